@@ -246,9 +246,31 @@ def rule_config_preserved(ctx, R="C19/config-preserved", only=None):
                 config.setdefault(fld, set()).add(fn.split("::")[-1])
     ctx.analysed["configuration_fields"] = {k: sorted(v) for k, v in sorted(config.items())}
     ctx.floor(R, "configuration fields (stored by setters outside dump)", len(config), 6)
+    # whole-object stores (`*self = Self { .. }`) inside a dump: every configuration field must be carried over from itself
+    whole = []
+    for fn in sorted(reach):
+        for body in prog.by_short.get(fn, ()):
+            bo = None
+            for bi, blk in enumerate(body.blocks):
+                if blk["cleanup"]:
+                    continue
+                for si, st in enumerate(blk["stmts"]):
+                    if st["k"] == "assign" and [e["k"] for e in st["p"]["proj"]] == ["deref"] and norm(body.locals[st["p"]["l"]]["ty"].lstrip("&").replace("mut ", "").strip()) == MW:
+                        bo = bo or Origin(body)
+                        whole.append((body, bi, si, strip(bo._rvalue(st["r"], (bi, si), 0))))
     for fld in sorted(config):
         if only is not None and fld not in only:
             continue
+        for body, bi, si, val in whole:
+            carried = False
+            if val[0] == "agg":
+                v = dict(val[3]).get(fld)
+                if v is not None:
+                    carried = any(q[0] == "field" and q[2] == fld and root(q[1]) == ("param", 1) for q in walk(v))
+            ctx.check(carried, R, ("whole-store", body.short.split("::")[-1], fld), body.where(bi, si),
+                      "%s overwrites the whole writer but carries %s over" % (body.short.split("::")[-1], fld),
+                      "%s overwrites the whole MinidumpWriter during a dump and MinidumpWriter.%s (set by %s) is not carried over: the next dump runs with the default instead of what the caller configured"
+                      % (body.short.split("::")[-1], fld, ", ".join(sorted(config[fld]))))
         writers = []
         for fn in sorted(reach):
             for body in prog.by_short.get(fn, ()):
